@@ -27,9 +27,16 @@ fn main() {
             let path = arg(&args, "--in").unwrap();
             let home = rv::engine::scratch_home("replayfile");
             let mut r = rv::replay::Replayer::new(&prop, None, home.clone());
+            // (not under valgrind, which reports the memory error itself and must see the process continue)
+            if std::env::var("RV_NO_CRASH_HANDLER").is_err() {
+                rv::crash::install(&prop, arg(&args, "--replay-dir").map(PathBuf::from).as_deref());
+                rv::crash::bind_thread(0);
+            }
             for line in std::fs::read_to_string(&path).unwrap().lines() {
                 if let Ok(v) = serde_json::from_str::<serde_json::Value>(line) {
+                    rv::crash::set_current(Some(line));
                     r.behaviour(&v);
+                    rv::crash::set_current(None);
                 }
             }
             let _ = std::fs::remove_dir_all(&home);
